@@ -9,6 +9,8 @@ CONSTANTS
   UncOffs = {1, 3}
   UncPrecs = {1, 2}
   Units = {"m/s"}
+  Convs <- ConvTwo
+  UncSrcs = {"arg", "attr"}
   RomanMax = 30
 INVARIANT TypeOK
 INVARIANT RoundCarries
